@@ -1,9 +1,439 @@
-import AQ.Proofs.RangeSet
-import AQ.Model.Stream
-namespace AQ.Props.C10
-open AQ AQ.RangeSet
+/-
+  Property C10 — stream send and receive halves conform to a reference model.
 
-theorem rangeset_add_wf (a b : Nat) (hab : a < b) (rs : List Rg) (hwf : WF rs) : WF (add a b rs) :=
-  add_wf a b hab rs hwf
+  Only the final theorems live here.  Receive half: the implementation model
+  `AQ.Stream.Recv` (AQ/Model/Stream.lean, tied to stream.py by the
+  correspondence check) against the reference model `AQ.Stream.RSpec`
+  (AQ/Model/StreamSpec.lean — the "simple offset-to-byte map"), both run on the
+  same arbitrary list of operations (`implRun`, `specRun` in
+  AQ/Proofs/StreamRecvRun.lean).
+
+  Send half.
+  Setting (definitions and the invariant are in AQ/Proofs/StreamSend.lean):
+  * `SOp` is one call on the sender; `step`/`run` execute the model
+    (`AQ.Stream.Send`, differentially tested against the Python) and, next to it,
+    a ghost history `Ghost` that records only what the caller saw: bytes
+    written, FIN written, reset called, frames emitted and not yet reported
+    (`outstanding`), frames reported ACKED before any reset (`acked`), RESET
+    frames in flight, RESET acknowledged.
+  * `WFHist σ0 ops` is the caller's side of the contract, nothing more: a
+    delivery report names a frame that was emitted and not yet reported; a RESET
+    frame is requested only after `reset()`; only emitted RESET frames are
+    reported.  Writes, frame requests (every `max_size`, every `max_offset`) and
+    resets are unconstrained; calls the sender refuses are no-ops.
+  * every theorem is about `run σ0 ops` for ALL such `ops`.
+-/
+import AQ.Proofs.StreamRecvRun
+import AQ.Proofs.StreamSend
+
+namespace AQ.Props.C10
+open AQ AQ.RangeSet AQ.Stream
+
+/-! ## Receive half -/
+
+/-- "For every sequence of frames (any offsets, overlaps, duplicates, FIN
+    positions) and resets applied to the receive half of a stream, the bytes …
+    it delivers equal those of a simple offset-to-byte map, and a final-size
+    error is raised exactly when [the reference model raises one]".
+
+    For every operation list: the final abstract states agree (same
+    undelivered known bytes, same delivered count, same final size, same
+    highest offset), every operation raises an error in the implementation iff
+    it does in the reference model (and then it is `FinalSizeError`), every
+    operation delivers exactly the same bytes, and an end marker delivered by
+    the implementation is also delivered by the reference model (this last part
+    holds even after a reset). -/
+theorem recv_refines_reference (ops : List ROp) :
+    abs (implRun {} ops).1 = (specRun {} ops).1 ∧
+    (implRun {} ops).2.map ROut.err? = (specRun {} ops).2.map ROut.err? ∧
+    (∀ e ∈ (implRun {} ops).2.map ROut.err?, e = none ∨ e = some Err.finalSize) ∧
+    (implRun {} ops).2.map ROut.data = (specRun {} ops).2.map ROut.data ∧
+    (∀ i : Nat, ((implRun {} ops).2[i]?.map ROut.endMarker) = some true →
+        ((specRun {} ops).2[i]?.map ROut.endMarker) = some true) := by
+  have h := run_refines ops inv_init
+  rw [abs_init] at h
+  have hm := h.2.2.maps
+  refine ⟨h.2.1, hm.1, ?_, hm.2.1, hm.2.2⟩
+  rw [hm.1]
+  exact specRun_err _ ops
+
+/-- "… the bytes and (until a reset is accepted) the end marker it delivers
+    equal those of a simple offset-to-byte map".
+
+    As long as no reset has been accepted, the implementation's outputs —
+    errors, presence of an event, its bytes and its end marker — are
+    *identical* to the reference model's, operation by operation.  Stated for
+    every split `pre ++ post` of the history: the outputs of the first
+    `pre.length` operations agree whenever `pre` contains no accepted reset. -/
+theorem recv_equals_reference_until_reset (pre post : List ROp)
+    (hnr : ROut.reset ∉ (specRun {} pre).2) :
+    (implRun {} (pre ++ post)).2.take pre.length = (specRun {} (pre ++ post)).2.take pre.length := by
+  have h := run_refines_strict pre inv_init finCovered_init (by rw [abs_init]; exact hnr)
+  rw [abs_init] at h
+  rw [implRun_append, specRun_append]
+  simp only []
+  rw [List.take_left' (implRun_length _ _), List.take_left' (specRun_length _ _)]
+  exact h.1
+
+/-- "… (until a reset is accepted) the end marker it delivers equal[s] …":
+    as long as no reset has been accepted, a frame's event carries the end
+    marker exactly when, after that frame, every byte below the fixed final
+    size has been delivered (delivery offset = final size).  In particular the
+    marker is never set while bytes are missing and never omitted on the frame
+    that completes the stream. -/
+theorem recv_end_marker_iff (ops : List ROp) (hnr : ROut.reset ∉ (implRun {} ops).2)
+    (f : Frame) (s' : Recv) (ev : Option DataEv)
+    (h : handleFrame (implRun {} ops).1 f = .ok (s', ev)) :
+    evEnd ev = true ↔ some s'.bufStart = s'.finalSize := by
+  have hr := run_refines ops inv_init
+  have hnr' : ROut.reset ∉ (specRun (abs {}) ops).2 := fun hx => hnr (hr.2.2.reset_mem.2 hx)
+  have hfc := (run_refines_strict ops inv_init finCovered_init hnr').2
+  have := handleFrame_refines f hr.1
+  unfold FrameRefines at this
+  rw [h] at this
+  split at this
+  · rename_i heq _; cases heq
+  · rename_i s'' ev'' t' ev' heq hs
+    cases heq
+    obtain ⟨-, h2, -, -, h5⟩ := this
+    have h6 := (h5 hfc).2
+    have := specFrame_end hs
+    rw [h6, this, ← h2]
+    exact decide_eq_true_iff
+  · exact this.elim
+
+/-- "a final-size error is raised exactly when data lies beyond, or a FIN or
+    reset disagrees with, an already fixed final size."
+
+    After any history `ops` the fixed final size is the one of the first FIN
+    or reset in the history (`firstFinal ops`; it is never changed afterwards),
+    and the next frame / reset raises — `FinalSizeError`, nothing else — exactly
+    under the stated condition. -/
+theorem recv_final_size_error_exactly (ops : List ROp) :
+    (implRun {} ops).1.finalSize = firstFinal ops ∧
+    (∀ f : Frame, (∃ e, handleFrame (implRun {} ops).1 f = .error e) ↔
+        ∃ z, firstFinal ops = some z ∧ (f.stop > z ∨ (f.fin = true ∧ f.stop ≠ z))) ∧
+    (∀ f e, handleFrame (implRun {} ops).1 f = .error e → e = .finalSize) ∧
+    (∀ y : Nat, (∃ e, handleReset (implRun {} ops).1 y = .error e) ↔
+        ∃ z, firstFinal ops = some z ∧ y ≠ z) ∧
+    (∀ y e, handleReset (implRun {} ops).1 y = .error e → e = .finalSize) := by
+  have h := run_refines ops inv_init
+  rw [abs_init] at h
+  have hf : (implRun {} ops).1.finalSize = firstFinal ops := by
+    have := specRun_final {} ops
+    rw [← h.2.1] at this
+    exact this
+  refine ⟨hf, ?_, ?_, ?_, ?_⟩
+  · intro f; rw [handleFrame_error_iff, hf]
+  · intro f e he
+    have := handleFrame_refines f h.1
+    unfold FrameRefines at this
+    rw [he] at this
+    split at this
+    · rename_i heq _; cases heq; exact this
+    · rename_i heq _; cases heq
+    · exact this.elim
+  · intro y; rw [handleReset_error_iff, hf]
+  · intro y e he
+    have := handleReset_refines y h.1
+    rw [he] at this
+    split at this
+    · rename_i heq _; cases heq; exact this
+    · rename_i heq _; cases heq
+    · exact this.elim
+
+/-- Nothing deliverable is withheld: after any history the byte at the
+    delivery point is unknown (the delivered run was maximal), no byte below it
+    is retained, and none is known at or above the highest offset seen. -/
+theorem recv_nothing_withheld (ops : List ROp) :
+    let t := abs (implRun {} ops).1
+    t.known t.delivered = none ∧ (∀ i, i < t.delivered → t.known i = none) ∧
+    (∀ i, t.hi ≤ i → t.known i = none) := by
+  have h := run_refines ops inv_init
+  rw [abs_init] at h
+  have hi := specRun_inv ops specInv_init
+  simp only []
+  rw [h.2.1]
+  exact ⟨hi.prompt, hi.below, hi.above⟩
+
+/-- Resource bound used by the flow-control property: after any history the
+    reassembly buffer holds at most `highest_offset - _buffer_start` bytes, its
+    range set is sorted, non-empty-ranged and non-touching, and every range lies
+    strictly inside the buffer window. -/
+theorem recv_buffer_bound (ops : List ROp) :
+    let s := (implRun {} ops).1
+    s.bufStart + s.buffer.length ≤ s.highest ∧ WF s.ranges ∧
+    ∀ x, mem x s.ranges → s.bufStart < x ∧ x < s.bufStart + s.buffer.length := by
+  have h := (run_refines ops inv_init).1
+  exact ⟨h.high, h.wf, fun x hx => ⟨h.lo x hx, h.hi x hx⟩⟩
+
+/-- Corollary (no gaps, no repeats, in order): when every frame of the history
+    carries the bytes of one source stream `src` at its offsets — the QUIC
+    sender's obligation — the concatenation of all data handed to the
+    application, in event order, is exactly `src 0, src 1, …, src (n-1)` where
+    `n` is the implementation's delivery offset (`_buffer_start`). -/
+theorem recv_delivers_source_prefix (src : Nat → UInt8) (ops : List ROp)
+    (hc : ∀ f, ROp.frame f ∈ ops → Consistent src f) :
+    ((implRun {} ops).2.map ROut.data).flatten = (List.range (implRun {} ops).1.bufStart).map src := by
+  have h := run_refines ops inv_init
+  rw [abs_init] at h
+  have hs := specRun_src (src := src) (t := {}) ops specInv_init (by intro i b hb; simp at hb) hc
+  rw [h.2.2.maps.2.1, hs.2, ← h.2.1]
+  simp only [abs, Nat.sub_zero]
+  rw [List.range_eq_range']
+
+/-! ### The hypotheses are satisfiable (non-trivial concrete histories) -/
+
+/-- source stream used in the examples: byte `i` is `i + 1` -/
+def exSrc : Nat → UInt8 := fun i => UInt8.ofNat (i + 1)
+
+/-- a history with a gap, FIN before the gap is filled, a frame straddling the
+    delivered prefix and a buffered range, a duplicate, a frame beyond the
+    final size and a conflicting FIN -/
+def exOps : List ROp :=
+  [ .frame ⟨0, [1, 2], false⟩,          -- fast path: delivers 1 2
+    .frame ⟨4, [5, 6], true⟩,           -- FIN at 6 arrives before the gap [2,4) is filled
+    .frame ⟨1, [2, 3], false⟩,          -- straddles the delivered prefix: delivers 3
+    .frame ⟨0, [1, 2, 3], false⟩,       -- pure duplicate: nothing
+    .frame ⟨5, [6, 7], false⟩,          -- beyond the final size: FinalSizeError
+    .frame ⟨2, [3, 4, 5], true⟩,        -- FIN at 5 ≠ 6: FinalSizeError
+    .frame ⟨3, [4, 5], false⟩ ]         -- fills the gap, overlaps the buffered range: 4 5 6 + end
+
+example : ∀ f, ROp.frame f ∈ exOps → Consistent exSrc f := by
+  intro f hf
+  simp only [exOps, List.mem_cons, ROp.frame.injEq, List.mem_nil_iff, or_false] at hf
+  rcases hf with rfl | rfl | rfl | rfl | rfl | rfl | rfl <;>
+    (intro i hi; simp only [List.length_cons, List.length_nil] at hi;
+     have : i = 0 ∨ i = 1 ∨ i = 2 := by omega
+     rcases this with rfl | rfl | rfl <;> first | rfl | (simp at hi))
+
+example : (implRun {} exOps).2 =
+    [ .ev (some ⟨[1, 2], false⟩), .ev none, .ev (some ⟨[3], false⟩), .ev none,
+      .err .finalSize, .err .finalSize, .ev (some ⟨[4, 5, 6], true⟩) ] := by decide
+
+example : (specRun {} exOps).2 = (implRun {} exOps).2 := by decide
+
+/-- after an accepted reset the end marker may be missing on the fast path (the
+    reason for "until a reset is accepted"): the implementation delivers the
+    last bytes without the marker, the reference model with it -/
+example : (implRun {} [.reset 2, .frame ⟨0, [1, 2], false⟩]).2 = [.reset, .ev (some ⟨[1, 2], false⟩)] ∧
+          (specRun {} [.reset 2, .frame ⟨0, [1, 2], false⟩]).2 = [.reset, .ev (some ⟨[1, 2], true⟩)] := by
+  decide
+
+/-! ## Send half
+
+  "For every sequence of writes, frame requests with any size and offset caps,
+   acknowledgements, losses and resets applied to the send half, every frame it
+   emits carries exactly the written bytes for its offsets, unacknowledged bytes
+   and FIN are re-offered after loss, nothing is offered after a reset, and it
+   reports completion exactly when all bytes and the FIN, or the reset, have
+   been acknowledged." -/
+
+/-! ### (a) emitted frames carry exactly the written bytes -/
+
+/-- "every frame it emits carries exactly the written bytes for its offsets":
+    in every reachable state, for every `max_size` and `max_offset`, a frame
+    returned by `get_frame` has as data exactly the written bytes at
+    `[offset, offset+len)`, lies inside what was written, respects the size cap
+    and (for data) the offset cap, carries FIN only if a FIN was written and the
+    frame ends at the final size, and is never an empty non-FIN frame. -/
+theorem send_frame_bytes (ops : List SOp) (hw : WFHist σ0 ops) (maxSize : Nat) (maxOffset : Option Nat)
+    (s' : Send) (f : OutFrame)
+    (hg : getFrame (run σ0 ops).1 maxSize maxOffset = .ok (s', some f)) :
+    f.data = ((run σ0 ops).2.written.drop f.offset).take f.data.length ∧
+    f.offset + f.data.length ≤ (run σ0 ops).2.written.length ∧
+    f.data.length ≤ maxSize ∧
+    (∀ mo, maxOffset = some mo → f.data ≠ [] → f.offset + f.data.length ≤ mo) ∧
+    (f.fin = true → (run σ0 ops).2.finWritten = true ∧
+        f.offset + f.data.length = (run σ0 ops).2.written.length) ∧
+    (f.data ≠ [] ∨ f.fin = true) :=
+  (SInv_reachable ops hw).frame_spec hg
+
+/-- "…carries exactly the written bytes for its offsets", relative to the whole
+    stream: later writes only append (`written` grows by suffixes), so the frame's
+    data are still the bytes at its offsets of everything written by any later
+    point of the history. -/
+theorem send_frame_bytes_stable (ops : List SOp) (hw : WFHist σ0 ops) (maxSize : Nat)
+    (maxOffset : Option Nat) (s' : Send) (f : OutFrame)
+    (hg : getFrame (run σ0 ops).1 maxSize maxOffset = .ok (s', some f)) (later : List SOp) :
+    (run σ0 ops).2.written <+: (run σ0 (ops ++ later)).2.written ∧
+    f.data = ((run σ0 (ops ++ later)).2.written.drop f.offset).take f.data.length := by
+  have h := (SInv_reachable ops hw).frame_spec hg
+  have hp : (run σ0 ops).2.written <+: (run σ0 (ops ++ later)).2.written := by
+    rw [run_append]; exact run_written_prefix _ _
+  exact ⟨hp, frame_bytes_stable hp h.1 h.2.1⟩
+
+/-! ### (b) nothing unacknowledged is forgotten; loss re-offers -/
+
+/-- "unacknowledged bytes and FIN are re-offered after loss" (conservation form):
+    in every reachable state before a reset, every written offset is pending
+    (will be offered by `get_frame`), or in a frame in flight, or acknowledged;
+    likewise the FIN once written; and while anything is pending the sender does
+    not report an empty buffer. -/
+theorem send_conservation (ops : List SOp) (hw : WFHist σ0 ops) (hr : (run σ0 ops).2.reset = false) :
+    (∀ i, i < (run σ0 ops).2.written.length →
+        mem i (run σ0 ops).1.pending ∨
+        (∃ f ∈ (run σ0 ops).2.outstanding, f.cov i = true) ∨
+        (∃ f ∈ (run σ0 ops).2.acked, f.cov i = true)) ∧
+    ((run σ0 ops).2.finWritten = true →
+        (run σ0 ops).1.pendingEof = true ∨
+        (∃ f ∈ (run σ0 ops).2.outstanding, f.fin = true) ∨
+        (∃ f ∈ (run σ0 ops).2.acked, f.fin = true)) ∧
+    (((run σ0 ops).1.pending ≠ [] ∨ (run σ0 ops).1.pendingEof = true) →
+        (run σ0 ops).1.bufferIsEmpty = false) :=
+  (SInv_reachable ops hw).conservation hr
+
+/-- the three places of `send_conservation` are exclusive and hold nothing but
+    written offsets: a pending offset is a written one, in no frame in flight and
+    not acknowledged; an offset in flight is a written one and not acknowledged
+    (so nothing is offered twice concurrently and nothing acknowledged is offered
+    again). -/
+theorem send_exclusive (ops : List SOp) (hw : WFHist σ0 ops) (hr : (run σ0 ops).2.reset = false) (i : Nat) :
+    (mem i (run σ0 ops).1.pending →
+        i < (run σ0 ops).2.written.length ∧
+        (∀ f ∈ (run σ0 ops).2.outstanding, f.cov i = false) ∧
+        ¬ ∃ f ∈ (run σ0 ops).2.acked, f.cov i = true) ∧
+    (∀ f ∈ (run σ0 ops).2.outstanding, f.cov i = true →
+        i < (run σ0 ops).2.written.length ∧ ¬ ∃ f ∈ (run σ0 ops).2.acked, f.cov i = true) :=
+  (SInv_reachable ops hw).exclusive hr i
+
+/-- "unacknowledged bytes and FIN are re-offered after loss" (step form): when a
+    frame in flight is reported LOST (before a reset), right after that call all
+    its offsets are pending again, its FIN (if it had one) is pending again, and
+    the sender reports a non-empty buffer. -/
+theorem send_lost_reoffered (ops : List SOp) (hw : WFHist σ0 ops) (hr : (run σ0 ops).2.reset = false)
+    (a b : Nat) (fin : Bool) (hf : (⟨a, b, fin⟩ : Fr) ∈ (run σ0 ops).2.outstanding) :
+    (∀ i, a ≤ i → i < b → mem i (run σ0 (ops ++ [.delivery .lost a b fin])).1.pending) ∧
+    (fin = true → (run σ0 (ops ++ [.delivery .lost a b fin])).1.pendingEof = true) ∧
+    ((a < b ∨ fin = true) → (run σ0 (ops ++ [.delivery .lost a b fin])).1.bufferIsEmpty = false) := by
+  obtain ⟨s', e, h1, h2, h3⟩ := (SInv_reachable ops hw).lost_reoffered hr hf
+  rw [run_append, run_cons, run_nil, e]
+  exact ⟨h1, h2, h3⟩
+
+/-! ### (c) what is pending is really offered -/
+
+/-- "…are re-offered": pending is not just a bookkeeping set.  In every
+    reachable state before a reset, if some range is pending then `get_frame`
+    with a positive size cap and an offset cap above the first pending offset
+    returns a non-empty frame starting at that offset (whose bytes are right by
+    `send_frame_bytes`); and when only the FIN is pending, every `get_frame`
+    returns the FIN-only frame at the final size. -/
+theorem send_progress (ops : List SOp) (hw : WFHist σ0 ops) (hr : (run σ0 ops).2.reset = false)
+    (maxSize : Nat) (maxOffset : Option Nat) :
+    (∀ r rest, (run σ0 ops).1.pending = r :: rest → 0 < maxSize →
+        (maxOffset = none ∨ ∃ mo, maxOffset = some mo ∧ r.start < mo) →
+        ∃ s' f, getFrame (run σ0 ops).1 maxSize maxOffset = .ok (s', some f) ∧
+          f.offset = r.start ∧ f.data ≠ []) ∧
+    ((run σ0 ops).1.pending = [] → (run σ0 ops).1.pendingEof = true →
+        ∃ s', getFrame (run σ0 ops).1 maxSize maxOffset =
+          .ok (s', some ⟨(run σ0 ops).2.written.length, [], true⟩)) :=
+  (SInv_reachable ops hw).progress hr maxSize maxOffset
+
+/-! ### (d) nothing after a reset -/
+
+/-- "nothing is offered after a reset": in every reachable state in which
+    `reset()` has been called, `get_frame` (any caps) raises AssertionError —
+    no frame — and the sender reports an empty buffer, so the packet builder
+    does not ask.  Losses reported after the reset change nothing
+    (`send_reset_monotone`: the state stays "reset" for the rest of the history). -/
+theorem send_nothing_after_reset (ops : List SOp) (hw : WFHist σ0 ops)
+    (hr : (run σ0 ops).2.reset = true) (maxSize : Nat) (maxOffset : Option Nat) :
+    getFrame (run σ0 ops).1 maxSize maxOffset = .error (.py .assertion) ∧
+    (run σ0 ops).1.bufferIsEmpty = true :=
+  (SInv_reachable ops hw).after_reset hr maxSize maxOffset
+
+/-- "…after a reset": once `reset()` was called it stays called, whatever follows
+    (so `send_nothing_after_reset` applies to every later state). -/
+theorem send_reset_monotone (ops later : List SOp) (hr : (run σ0 ops).2.reset = true) :
+    (run σ0 (ops ++ later)).2.reset = true := by
+  rw [run_append]; exact run_reset_mono _ _ hr
+
+/-! ### (e) completion -/
+
+/-- "it reports completion exactly when all bytes and the FIN, or the reset, have
+    been acknowledged": in every reachable state `is_finished` is true iff
+    (a FIN was written, a FIN-carrying frame was acknowledged and every written
+    offset lies in an acknowledged frame — `DataDone`, acknowledgements counted
+    up to the call of `reset()`, because after it on_data_delivery returns early
+    and completion "only depends on the reset being acknowledged") or a RESET
+    frame was acknowledged; and a RESET can only be acknowledged after `reset()`. -/
+theorem send_finished_iff (ops : List SOp) (hw : WFHist σ0 ops) :
+    ((run σ0 ops).1.finished = true ↔
+        (DataDone (run σ0 ops).2 ∨ (run σ0 ops).2.resetAcked = true)) ∧
+    ((run σ0 ops).2.resetAcked = true → (run σ0 ops).2.reset = true) :=
+  ⟨(SInv_reachable ops hw).fin_iff, (SInv_reachable ops hw).racked⟩
+
+/-! ### Failed calls -/
+
+/-- "for every sequence of writes, frame requests …, acknowledgements, losses and
+    resets": the history semantics treats a call on which the sender raises as a
+    no-op.  That is exact: in every reachable state the only exceptions are the
+    entry `assert`s of stream.py (first statements, before any mutation) —
+    `get_frame` raises only after `reset()`, `write` only after a FIN was written
+    or after `reset()`, and reporting a frame in flight never raises. -/
+theorem send_errors_are_entry_asserts (ops : List SOp) (hw : WFHist σ0 ops) :
+    (∀ ms mo e, getFrame (run σ0 ops).1 ms mo = .error e →
+        (run σ0 ops).2.reset = true ∧ e = .py .assertion) ∧
+    (∀ data fin e, write (run σ0 ops).1 data fin = .error e →
+        ((run σ0 ops).2.finWritten = true ∨ (run σ0 ops).2.reset = true) ∧ e = .py .assertion) ∧
+    (∀ d a b fin, (⟨a, b, fin⟩ : Fr) ∈ (run σ0 ops).2.outstanding →
+        ∃ s', onDataDelivery (run σ0 ops).1 d a b fin = .ok s') :=
+  (SInv_reachable ops hw).errors_are_entry_asserts
+
+/-! ### The hypotheses are satisfiable (tests, not theorems) -/
+
+/-- write 6 bytes; three frames [0,2) [2,4) [4,6); the MIDDLE one is acked first;
+    the first is lost and re-offered in two pieces (offset cap 1, then the rest);
+    FIN written afterwards, sent alone, lost, re-sent; acks out of order. -/
+def exampleOps : List SOp :=
+  [ .write [1, 2, 3, 4, 5, 6] false,
+    .get 2 none, .get 2 none, .get 100 none,
+    .delivery .acked 2 4 false,
+    .delivery .lost 0 2 false,
+    .get 100 (some 1),
+    .get 100 none,
+    .write [] true,
+    .get 100 none,
+    .delivery .acked 1 2 false,
+    .delivery .acked 4 6 false,
+    .delivery .lost 6 6 true,
+    .get 0 (some 0),
+    .delivery .acked 0 1 false,
+    .delivery .acked 6 6 true ]
+
+example : WFHist σ0 exampleOps ∧ (run σ0 exampleOps).1.finished = true ∧
+    (run σ0 (exampleOps.take 15)).1.finished = false := by decide
+
+/-- the re-offered frame after the loss carries bytes 0..1 again -/
+example : (getFrame (run σ0 (exampleOps.take 6)).1 100 none).toOption.map (·.2) =
+    some (some ⟨0, [1, 2], false⟩) := by decide
+
+/-- a reset in mid-flight: frames are refused, the lost RESET is re-armed, and the
+    stream finishes on the RESET acknowledgement only. -/
+def exampleResetOps : List SOp :=
+  [ .write [7, 8, 9] true, .get 2 none, .reset 5, .get 10 none, .getReset,
+    .delivery .acked 0 2 false, .resetDelivery .lost, .getReset, .resetDelivery .acked ]
+
+example : WFHist σ0 exampleResetOps ∧ (run σ0 exampleResetOps).1.finished = true ∧
+    (run σ0 exampleResetOps).2.resetAcked = true ∧
+    (run σ0 (exampleResetOps.take 8)).1.finished = false := by decide
 
 end AQ.Props.C10
+
+#print axioms AQ.Props.C10.recv_refines_reference
+#print axioms AQ.Props.C10.recv_equals_reference_until_reset
+#print axioms AQ.Props.C10.recv_end_marker_iff
+#print axioms AQ.Props.C10.recv_final_size_error_exactly
+#print axioms AQ.Props.C10.recv_nothing_withheld
+#print axioms AQ.Props.C10.recv_buffer_bound
+#print axioms AQ.Props.C10.recv_delivers_source_prefix
+#print axioms AQ.Props.C10.send_frame_bytes
+#print axioms AQ.Props.C10.send_frame_bytes_stable
+#print axioms AQ.Props.C10.send_conservation
+#print axioms AQ.Props.C10.send_exclusive
+#print axioms AQ.Props.C10.send_lost_reoffered
+#print axioms AQ.Props.C10.send_progress
+#print axioms AQ.Props.C10.send_nothing_after_reset
+#print axioms AQ.Props.C10.send_reset_monotone
+#print axioms AQ.Props.C10.send_finished_iff
+#print axioms AQ.Props.C10.send_errors_are_entry_asserts
